@@ -1,5 +1,39 @@
-/* extra.c — further operation families of the harness VM (message builders, VSS codec, ...). */
+/* extra.c — further operation families of the harness VM (byte order, message builders,
+   VSS codec, ...). */
 #include <stdio.h>
+#include <stdlib.h>
 #include <string.h>
+#include <inttypes.h>
 #include "hv.h"
-int vm_extra(char** tok, int nt) { (void)tok; (void)nt; return 0; }
+#include "avtp/Byteorder.h"
+
+int vm_can(char** tok, int nt);
+int vm_vss(char** tok, int nt);
+
+static void image(const void* p, int n) {
+    const unsigned char* b = p;
+    for (int i = 0; i < n; i++) printf("%02x", b[i]);
+}
+
+/* bo <helper> <x>  ->  v <result> <memory image of the result object> */
+static int vm_byteorder(char** tok, int nt) {
+    if (strcmp(tok[0], "bo") || nt != 3) return 0;
+    uint64_t x = strtoull(tok[2], NULL, 10);
+    const char* h = tok[1];
+#define H(N, T) if (!strcmp(h, #N)) { T r = N((T)x); printf("v %" PRIu64 " ", (uint64_t)r); image(&r, sizeof r); putchar('\n'); return 1; }
+    H(Avtp_Bswap16, uint16_t) H(Avtp_Bswap32, uint32_t) H(Avtp_Bswap64, uint64_t)
+    H(Avtp_CpuToLe16, uint16_t) H(Avtp_CpuToLe32, uint32_t) H(Avtp_CpuToLe64, uint64_t)
+    H(Avtp_CpuToBe16, uint16_t) H(Avtp_CpuToBe32, uint32_t) H(Avtp_CpuToBe64, uint64_t)
+    H(Avtp_LeToCpu16, uint16_t) H(Avtp_LeToCpu32, uint32_t) H(Avtp_LeToCpu64, uint64_t)
+    H(Avtp_BeToCpu16, uint16_t) H(Avtp_BeToCpu32, uint32_t) H(Avtp_BeToCpu64, uint64_t)
+#undef H
+    puts("bad-op");
+    return 1;
+}
+
+int vm_extra(char** tok, int nt) {
+    if (vm_byteorder(tok, nt)) return 1;
+    if (vm_can(tok, nt)) return 1;
+    if (vm_vss(tok, nt)) return 1;
+    return 0;
+}
